@@ -76,7 +76,34 @@ package didstore
 //@   ensures [version-increments] currentMeta != nil && isNilIface(result.2) ==> result.1.Version == old(currentMeta.Version) + 1 && same(result.1.Created, old(currentMeta.Created))
 //@   ensures [deactivation-is-permanent] currentMeta != nil && isNilIface(result.2) && old(currentMeta.Deactivated) ==> result.1.Deactivated
 //@   ensures [links-to-previous-version] currentMeta != nil && isNilIface(result.2) ==> result.1.PreviousHash != nil
+//@   ensures [deactivated-only-by-its-own-document-or-history] currentMeta != nil && isNilIface(result.2) ==> result.1.Deactivated == (old(newMeta.Deactivated) || old(currentMeta.Deactivated))
 //@   ensures [hash-is-of-the-returned-document] did(call json.Marshal #1) ==> arg(call json.Marshal #1, 0) == any(result.0) && same(result.1.Hash, ret(call hash.SHA256Sum #1))
+
+// The deactivated flag of a version is decided by the document of its own transaction (and, through
+// applyDocument, by its history) - never by the merged document, which may have regained a controller
+// from a parallel branch; and exactly the metadata the fold returned is what is stored.
+//@ func isDeactivated
+//@   prop C10
+//@   pure
+//@   ensures result == (len(document.Controller) == 0 && len(document.CapabilityInvocation) == 0)
+//@ func readDocumentFromEvent
+//@   trusted
+//@   benign
+//@ func (go-stoabs.WriteTx).GetShelfWriter
+//@   trusted
+//@   benign
+//@ func (go-stoabs.Writer).Put
+//@   trusted
+//@   benign
+//@ func applyEvent
+//@   prop C10
+//@   nullable latestMetadata
+//@   call applyDocument #1 requires [flag-from-the-events-own-document] isNilIface(ret(call readDocumentFromEvent #1).1)
+//@        && same(arg(2), ret(call readDocumentFromEvent #1).0) && arg(3).Deactivated == isDeactivated(ret(call readDocumentFromEvent #1).0)
+//@        && arg(1) == latestMetadata && same(arg(3).Hash, nextEvent.PayloadHash) && same(arg(3).Updated, nextEvent.SigningTime)
+//@   call (go-stoabs.Writer).Put #1 requires [stored-metadata-is-what-the-fold-returned] isNilIface(ret(call applyDocument #1).2)
+//@        && arg(2) == ret(call json.Marshal #1).0 && arg(call json.Marshal #1, 0) == any(ret(call applyDocument #1).1)
+//@   ensures [returns-what-the-fold-returned] isNilIface(result.2) ==> result.1 != nil && same(*result.1, ret(call applyDocument #1).1) && result.0 != nil && same(*result.0, ret(call applyDocument #1).0)
 
 // ---- C10: the merged (conflicted) document is canonical: every multi-valued field that was collected
 // through a Go map is sorted before the document is returned, so its hash does not depend on map order ----
